@@ -88,6 +88,47 @@ PROPS["C06"] = {
                     "'is requested from the publisher' is checked as 'a NACK was written to the PeerConnection'"],
 }
 
+PROPS["C11"] = {
+    "units": [
+        rapid("permission-machine", "rtpconn", "TestVerif_C11_PermissionMachine", 500, 4000),
+    ],
+    "technique": "model-based stateful property testing (rapid) of the signalling state machine",
+    "assumptions": ["processing order of queued actions is drawn; true preemption inside a handler is not explored",
+                    "offers carry unparsable SDP so that the permission decision is observed without creating PeerConnections"],
+}
+
+PROPS["C14"] = {
+    "units": [
+        rapid("userlist-machine", "rtpconn", "TestVerif_C14_UserListConvergence", 500, 4000),
+    ],
+    "technique": "model-based stateful property testing (rapid): views rebuilt from events vs true membership at quiescence",
+    "assumptions": ["quiescence = all action queues drained and galene's broadcast goroutines finished (exact barrier on the goroutine dump)"],
+}
+
+PROPS["C15"] = {
+    "units": [
+        rapid("chat-machine", "rtpconn", "TestVerif_C15_ChatMachine", 500, 4000),
+    ],
+    "technique": "model-based stateful property testing (rapid): delivery model and history model",
+    "assumptions": [],
+}
+
+PROPS["C10"] = {
+    "units": [
+        rapid("admission-machine", "rtpconn", "TestVerif_C10_AdmissionMachine", 500, 4000),
+    ],
+    "technique": "model-based stateful property testing (rapid) of admission + forced schedules with fake clients",
+    "assumptions": [],
+}
+
+PROPS["C08"] = {
+    "units": [
+        rapid("login-machine", "rtpconn", "TestVerif_C08_LoginMachine", 400, 3000),
+    ],
+    "technique": "property-based testing (rapid) against an independent decision procedure; metamorphic login-after-moderation machine",
+    "assumptions": ["bcrypt inputs restricted to NUL-free strings of <=72 bytes, pbkdf2 keys >=16 bytes (limits of the primitives, not galene's claim)"],
+}
+
 NOT_APPLICABLE = {}
 
 ENGINES = [
